@@ -346,6 +346,38 @@ fn magnitude_inputs(d: &FmtDesc, thorough: bool) -> Vec<Vec<u8>> {
     v
 }
 
+/// SPEC: the special words with 0, 1 or 2 separators at every position, signs, trailing junk.
+fn special_inputs(d: &FmtDesc) -> Vec<Vec<u8>> {
+    let sep = if d.sep != 0 { d.sep } else { b'_' };
+    let mut v: Vec<Vec<u8>> = Vec::new();
+    for w in [&b"nan"[..], b"NaN", b"inf", b"Inf", b"infinity", b"INFINITY"] {
+        let mut shapes: Vec<Vec<u8>> = vec![w.to_vec()];
+        for i in 0..=w.len() {
+            let mut a = w.to_vec();
+            a.insert(i, sep);
+            shapes.push(a.clone());
+            for j in i..=w.len() {
+                let mut b = a.clone();
+                b.insert(j + 1, sep);
+                shapes.push(b);
+            }
+        }
+        for sh in shapes {
+            for sign in [&b""[..], b"+", b"-"] {
+                for tail in [&b""[..], b"x"] {
+                    let mut s = sign.to_vec();
+                    s.extend_from_slice(&sh);
+                    s.extend_from_slice(tail);
+                    v.push(s);
+                }
+            }
+        }
+    }
+    v.sort();
+    v.dedup();
+    v
+}
+
 fn run(rep: &Report, cli: &Cli, c11: bool) {
     let thorough = cli.tier == "thorough";
     let prop = if c11 { "C11" } else { "C10" };
@@ -398,6 +430,13 @@ fn run(rep: &Report, cli: &Cli, c11: bool) {
             c.check_fmt(f, &s);
         }
         c.done();
+        if f.desc.mantissa_radix <= 18 {
+            let mut c = Ck::new(c11, rep, &format!("{prop}:SPEC"), tid, f.desc.mantissa_radix);
+            for s in special_inputs(&f.desc) {
+                c.check_fmt(f, &s);
+            }
+            c.done();
+        }
         if matches!(f.group, "STD" | "RADIX") {
             let mut c = Ck::new(c11, rep, &format!("{prop}:MAG"), tid, f.desc.mantissa_radix);
             for s in magnitude_inputs(&f.desc, thorough) {
